@@ -34,8 +34,11 @@ class Contract:
     def __init__(
         self, key, src=None, params=None, defaults=None, cases=(), requires=None, ensures=(),
         canaries=(), loops=None, modifies=(), allocates=False, result=None, inline=False,
-        custom=None, is_property=False, label="proved", doc="",
+        custom=None, is_property=False, label="proved", doc="", witness=None,
     ):
+        if witness is None:
+            from vf.witness import generic_witness as witness
+        self.witness = witness  # fn(model, entry_state, args) -> JSON-able concrete input
         self.key = key
         self.src = src  # (relpath, qualname) in /repo, or None for assumed externals
         self._params = params
@@ -146,6 +149,7 @@ class FunctionReport:
         self.summarised = []
         self.wall_s = 0.0
         self.cases = []
+        self.entries = {}
 
 
 def verify(contract, registry, imports=None, timeout_ms=None, only=None):
@@ -186,6 +190,7 @@ def verify(contract, registry, imports=None, timeout_ms=None, only=None):
                 raise GuardFailure(f"{contract.key}/{case.name}: precondition is unsatisfiable (vacuous)")
             n_out = 0
             old = st.fork()
+            rep.entries[case.name] = (old, args)
             for st1, flow in ex.run(contract, st, dict(args)):
                 n_out += 1
                 raised = st1.exc if flow.kind == "raise" else None
@@ -216,6 +221,7 @@ def verify(contract, registry, imports=None, timeout_ms=None, only=None):
         except GuardFailure as e:
             rep.guard_failures.append(f"{case.name}: {e}")
         for ob in ex.obligations:
+            ob.info["case"] = case.name
             ob.name = f"{contract.key}/{case.name}/{ob.name}"
             ob.kind = contract.label
             if only and not any(o in ob.name for o in only):
